@@ -67,7 +67,9 @@ struct SchemaDef { dirs: Vec<App>, ops: Vec<(String, String)>, is_ext: bool }
 #[derive(Clone, Debug)]
 enum Item { T(TypeDef), D(DirDef), S(SchemaDef) }
 #[derive(Clone, Debug)]
-struct Model { items: Vec<Item>, features: Vec<String>, n_files: usize }
+struct Model { items: Vec<Item>, features: Vec<String>, n_files: usize,
+               /// whole files appended verbatim after the rendered ones (layouts the renderer must not disturb)
+               extra_files: Vec<String> }
 
 impl Model {
     fn types(&self) -> impl Iterator<Item = &TypeDef> { self.items.iter().filter_map(|i| if let Item::T(t) = i { Some(t) } else { None }) }
@@ -228,7 +230,9 @@ fn render_model(m: &Model, lay: &mut Rng) -> Vec<String> {
     // every file must hold at least one definition (the grammar needs one)
     let files: Vec<String> = files.into_iter()
         .filter(|f| f.lines().any(|l| !l.trim_start().starts_with('#') && l.contains(|c: char| c.is_ascii_alphabetic()))).collect();
-    if files.is_empty() { vec!["scalar Lonely\n".to_string()] } else { files }
+    let mut files = if files.is_empty() { vec!["scalar Lonely\n".to_string()] } else { files };
+    files.extend(m.extra_files.iter().cloned());
+    files
 }
 
 // ------------------------------------------------------------------ valid-by-construction generator
@@ -533,7 +537,7 @@ fn gen_model(rng: &mut Rng, cfg: &GenCfg) -> Model {
     }
     rng.shuffle(&mut items);
     features.sort(); features.dedup();
-    Model { items, features, n_files: if rng.chance(1, 2) { 1 } else { rng.range(2, 3) } }
+    Model { items, features, n_files: if rng.chance(1, 2) { 1 } else { rng.range(2, 3) }, extra_files: vec![] }
 }
 
 // ------------------------------------------------------------------ single-fault mutations, labelled by rule
@@ -613,7 +617,7 @@ fn all_types_snapshot(m: &Model) -> Vec<TypeDef> { m.types().cloned().collect() 
 
 fn mutation_kinds() -> Vec<&'static str> {
     vec!["reserved_type", "reserved_field", "reserved_arg", "reserved_input_field", "reserved_directive", "reserved_directive_arg",
-         "dup_field", "dup_arg", "dup_directive_arg", "dup_enum_value", "dup_union_member", "dup_input_field", "dup_type",
+         "dup_field", "dup_field_same_pos_other_file", "dup_arg", "dup_directive_arg", "dup_enum_value", "dup_union_member", "dup_input_field", "dup_type",
          "unknown_field_type", "unknown_arg_type", "unknown_directive_arg_type", "unknown_input_field_type", "unknown_implements", "unknown_union_member",
          "input_in_output", "output_in_arg", "output_in_directive_arg", "output_in_input_field",
          "not_interface", "implements_self", "missing_transitive", "iface_implements_cycle",
@@ -732,6 +736,24 @@ fn mutate(rng: &mut Rng, m: &mut Model, kind: &str) -> Option<(String, String)> 
             let j = rng.below(fs.len()); let mut c = fs[j].clone(); c.dirs.clear();
             let at = rng.range(j + 1, fs.len()); fs.insert(at, c);
             ok("dup_field", tag)
+        }
+        "dup_field_same_pos_other_file" => {
+            // the same field in a definition and in an `extend` (or in two extensions) placed in DIFFERENT files at exactly
+            // the same line and column: positions that differ only in their file index
+            let iface = rng.chance(1, 2);
+            let (kw, name) = if iface { ("interface", "DupPosI") } else { ("type", "DupPosO") };
+            let two_ext = rng.chance(1, 2);
+            let fld = *rng.pick(&["id: ID!", "id(a: Int): [String]", "name: String @deprecated"]);
+            if two_ext {
+                m.extra_files.push(format!("{kw} {name} {{\n  other: Int\n}}\n"));
+                m.extra_files.push(format!("extend {kw} {name} {{\n  {fld}\n}}\n"));
+                m.extra_files.push(format!("extend {kw} {name} {{\n  {fld}\n}}\n"));
+            } else {
+                // `extend type X {` is longer than `type X {` on line 0 only; the field sits at 1:2 in both files
+                m.extra_files.push(format!("{kw} {name} {{\n  {fld}\n}}\n"));
+                m.extra_files.push(format!("extend {kw} {name} {{\n  {fld}\n}}\n"));
+            }
+            ok("dup_field", &format!("same_position_other_file:{}{}", if iface { "interface" } else { "object" }, if two_ext { ":two_extensions" } else { "" }))
         }
         "dup_arg" => {
             let idx = type_idx(m, is_comp); let i = *rng.pick(&idx);
@@ -1385,6 +1407,12 @@ fn corpus() -> Vec<(&'static str, &'static str, &'static str)> {
         ("directive_recursive", "corpus:cycle3_with_entry_first", "directive @entry(x: Int @b) on FIELD\ndirective @a(y: Int @b) on ARGUMENT_DEFINITION\ndirective @b(y: Int @c) on ARGUMENT_DEFINITION\ndirective @c(y: Int @a) on ARGUMENT_DEFINITION\ntype Query { a: Int }\n"),
         ("directive_recursive", "corpus:cycle_via_type_with_entry_first", "directive @entry(x: Int @ping) on FIELD\ndirective @ping(y: [In!]) on ARGUMENT_DEFINITION\ninput In { f: Int @pong }\ndirective @pong(z: Int @ping) on INPUT_FIELD_DEFINITION\ntype Query { a: Int }\n"),
         ("directive_recursive", "corpus:two_entries_first", "directive @e1(x: Int @ping) on FIELD\ndirective @e2(x: Int @e1 @pong) on FIELD | ARGUMENT_DEFINITION\ndirective @ping(y: Int @pong) on ARGUMENT_DEFINITION\ndirective @pong(z: Int @ping) on ARGUMENT_DEFINITION\ntype Query { a: Int }\n"),
+        ("dup_field", "corpus:same_position_in_extension_of_other_file", "type User {\n  id: ID!\n}\ntype Query { u: User }\n\u{1}extend type User {\n  id: ID!\n}\n"),
+        ("dup_field", "corpus:same_position_in_two_extensions_of_other_files", "interface Node {\n  x: Int\n}\ntype Query { a: Int }\n\u{1}extend interface Node {\n  id: ID!\n}\n\u{1}extend interface Node {\n  id: ID!\n}\n"),
+        ("dup_arg", "corpus:same_position_argument_in_other_file", "type User {\n  f(\n    a: Int\n  ): Int\n}\ntype Query { u: User }\n\u{1}extend type User {\n  g(\n    a: Int\n    a: Int\n  ): Int\n}\n"),
+        ("dup_enum_value", "corpus:same_position_enum_value_in_other_file", "enum E {\n  A\n}\ntype Query { e: E }\n\u{1}extend enum E {\n  A\n}\n"),
+        ("dup_input_field", "corpus:same_position_input_field_in_other_file", "input In {\n  a: Int\n}\ntype Query { f(i: In): Int }\n\u{1}extend input In {\n  a: Int\n}\n"),
+        ("dup_union_member", "corpus:same_position_union_member_in_other_file", "type A { x: Int }\nunion U =\n  A\ntype Query { u: U }\n\u{1}type B { y: Int }\nextend union U =\n  A\n"),
         ("missing_transitive", "corpus:implements_cycle_2", "interface A implements B { id: ID! }\ninterface B implements A { id: ID! }\ntype Query { a: Int }\n"),
         ("missing_transitive", "corpus:implements_cycle_3", "interface A implements B & C { id: ID! }\ninterface B implements C & A { id: ID! }\ninterface C implements A & B { id: ID! }\ntype Query { a: Int }\n"),
         ("missing_transitive", "corpus:implements_cycle_2_with_object", "interface A implements B { id: ID! }\ninterface B implements A { id: ID! }\ntype Query implements A & B { id: ID! }\n"),
@@ -1580,7 +1608,8 @@ fn main() {
 
     // corpus first (hand-written witnesses and past disagreements)
     for (label, site, text) in corpus() {
-        let files = vec![text.to_string()];
+        // `\u{1}` separates the files of a multi-file corpus schema
+        let files: Vec<String> = text.split('\u{1}').map(|f| f.to_string()).collect();
         distinct.insert(files.join("\u{1}"));
         emit(label, site, &[], files, 0, &mut cases, &mut dist);
     }
